@@ -102,8 +102,11 @@ pub fn observe(c: &Case, pools: &mut HashMap<usize, Arc<rayon::ThreadPool>>) -> 
             'r' => { if ad.running() { "1".into() } else { "0".into() } }
             'w' => { ad.wait(); "".into() }
             'n' => { ad.wait_without_tl(); "".into() }
-            'o' => { let _ = ad.world(); "".into() }
-            'm' => { let _ = ad.world_mut(); "".into() }
+            // every other time through the deprecated aliases res() / mut_res(): the same accessors
+            #[allow(deprecated)]
+            'o' => { if i % 2 == 0 { let _ = ad.world(); } else { let _ = ad.res(); } "".into() }
+            #[allow(deprecated)]
+            'm' => { if i % 2 == 0 { let _ = ad.world_mut(); } else { let _ = ad.mut_res(); } "".into() }
             's' => { ad.setup(); "".into() }
             _ => panic!("async op"),
         }));
